@@ -249,7 +249,7 @@ def readInput (fs : FS) (cwd : String) (includeDirs : List String) (input : Inpu
     let fuel := fs.files.length + 2
     match input with
     | .source text =>
-      if !text.toList.all (fun c => c.toNat < 128) then .error (.unsupported "non-ASCII source")
+      if !sourceOk text.toList then .error (.unsupported "non-ASCII source")
       else readLinesAux fs includeDirs fuel "<string>" cwd text.toList
     | .path p =>
       if !absOk p then .error (.unsupported "path form")
@@ -257,7 +257,7 @@ def readInput (fs : FS) (cwd : String) (includeDirs : List String) (input : Inpu
         match fs.readAt p with
         | none => .error (.unsupported "main file missing")
         | some bs =>
-          match bytesToAscii bs with
+          match bytesToText bs with
           | none => .error (.unsupported "non-ASCII source")
           | some src => readLinesAux fs includeDirs fuel p (baseOf p) src
 
@@ -276,7 +276,7 @@ theorem frontEnd_eq (fs : FS) (cwd : String) (includeDirs : List String) (input 
       cases input with
       | source text =>
         simp only
-        by_cases h3 : (text.toList.all fun c => decide (c.toNat < 128)) = true
+        by_cases h3 : sourceOk text.toList = true
         · simp only [h3, Bool.not_true, Bool.false_eq_true, ↓reduceIte, pure, Except.pure, bind, Except.bind]
         · simp only [h3, Bool.not_false, ↓reduceIte, throw, throwThe, MonadExceptOf.throw, bind, Except.bind]
       | path p =>
@@ -287,7 +287,7 @@ theorem frontEnd_eq (fs : FS) (cwd : String) (includeDirs : List String) (input 
           | none => simp only [throw, throwThe, MonadExceptOf.throw, bind, Except.bind]
           | some bs =>
             simp only
-            cases bytesToAscii bs with
+            cases bytesToText bs with
             | none => simp only [throw, throwThe, MonadExceptOf.throw, bind, Except.bind]
             | some src =>
               simp only
